@@ -228,7 +228,7 @@ theorem filter_Ginv (c : Cfg) (p : RPhase) (s : St) (hnh : s.halted = false)
   -- facts about the state after the pass
   generalize hg : filterPass c p s = g
   have gF : g.toFState = (runRecv c.recv p s.toFState).1 := by rw [← hg, filterPass_toFState]
-  have gT : g.trace = s.trace ++ [.rpass p s.cursor (runRecv c.recv p s.toFState).2] := by rw [← hg, filterPass_trace]
+  have gT : g.trace = s.trace ++ [.rpass p (startOf s.toFState p) (runRecv c.recv p s.toFState).2] := by rw [← hg, filterPass_trace]
   have gP : g.phase = s.phase := by rw [← hg, filterPass_phase]
   have gR : g.upstreamReset = false := by rw [← hg, filterPass_upstreamReset]; exact hf.upstreamReset
   have gD : g.procDone = false := by rw [← hg, filterPass_procDone]; exact hcom.procDone
@@ -245,18 +245,18 @@ theorem filter_Ginv (c : Cfg) (p : RPhase) (s : St) (hnh : s.halted = false)
   -- sender side, back part
   have gS : SFresh g.toFState := by
     rw [gF]; unfold runRecv
-    obtain ⟨h1, h2⟩ := recvLoop_sender p (c.recv.drop s.toFState.cursor) s.toFState.cursor s.toFState
+    obtain ⟨h1, h2⟩ := recvLoop_sender p (c.recv.drop (startOf s.toFState p)) (startOf s.toFState p) s.toFState
     exact ⟨by rw [h1]; exact hf.sfresh.1, by rw [h2]; exact hf.sfresh.2⟩
   have gB : backPart g.trace = [] := by rw [gT, backPart_snoc]; simp [isBack]; exact hf.noback
   -- reply fold
   have gReply : (g.toFState.resp, g.toFState.statusVar) = replyOf (recvVerdicts g.trace) (none, none) := by
     have hno : ¬ DenyIn s.trace := hf.nodeny
     rw [gT, recvVerdicts_snoc_rpass, replyOf_append, replyOf_noact _ _ (nodeny_noact hno), gF]
-    have := recvLoop_reply p (c.recv.drop s.toFState.cursor) s.toFState.cursor s.toFState actok
+    have := recvLoop_reply p (c.recv.drop (startOf s.toFState p)) (startOf s.toFState p) s.toFState actok
     rw [hs_resp, hs_sv] at this
     exact this
   have gAns : Ans g.view := fun _ => gReply
-  have gAgainVals := recvLoop_again_vals p (c.recv.drop s.toFState.cursor) s.toFState.cursor s.toFState (Or.inl hs_again)
+  have gAgainVals := recvLoop_again_vals p (c.recv.drop (startOf s.toFState p)) (startOf s.toFState p) s.toFState (Or.inl hs_again)
   have gDirResp : g.toFState.direct = true → g.toFState.resp.isSome = true := by
     rw [gF]; exact recvLoop_direct_resp p _ _ _ (fun h => by rw [hs_dir] at h; cases h)
   have hphne : g.phase ≠ UpFilter := by rw [gP]; show s.phase ≠ 12; omega
